@@ -1,6 +1,7 @@
 package mon
 
 import (
+	"strconv"
 	"fmt"
 	"math/rand"
 	"path/filepath"
@@ -385,6 +386,19 @@ func c11Rules(c *Ctx) {
 	for _, x := range []string{"mustGet", "MUSTGet", "Mus", "Mustx"[:3] + "T", "muster", "GetIncontext", "InContextX", "Incontext", "GetInContext2", "GetInContexts", "inContext", "MusT", "Mmust", "AMust"} {
 		add("getter-look-alike:"+x, "services:\n  svc:\n    value: \"V\"\n    getter: \""+x+"\"\n", true)
 	}
+	// white space between the keyword of a special argument form and its operand is any white space (the grammar says \s+)
+	for k, ws := range []string{"\t", "\t\t", " \t ", "\n", "\r\n", "  "} {
+		q := func(x string) string { return strconv.Quote(x) }
+		add(fmt.Sprintf("value-after-whitespace-%d:valid", k), "services:\n  svc:\n    constructor: \"New\"\n    arguments: ["+q("!value"+ws+"MyVar")+", "+q("!value"+ws+"&pkg.S{}")+"]\n", true)
+		add(fmt.Sprintf("value-after-whitespace-%d:invalid", k), "services:\n  svc:\n    constructor: \"New\"\n    arguments: ["+q("!value"+ws+"MyVar()")+"]\n", false, "svc")
+		add(fmt.Sprintf("value-after-whitespace-%d:invalid-field", k), "services:\n  svc:\n    value: \"V\"\n    fields: {F: "+q("!value"+ws+"a b")+"}\n", false, "svc")
+		add(fmt.Sprintf("tagged-after-whitespace-%d:valid", k), "services:\n  svc:\n    constructor: \"New\"\n    arguments: ["+q("!tagged"+ws+"tg")+"]\n", true)
+		add(fmt.Sprintf("tagged-after-whitespace-%d:invalid", k), "services:\n  svc:\n    constructor: \"New\"\n    arguments: ["+q("!tagged"+ws+"bad tag")+"]\n", false, "svc")
+	}
+	// explicit `todo: false` is the same as no todo: rules that compare services with each other still apply
+	add("todo-false:same-getter-two-services", "services:\n  a:\n    value: \"V\"\n    todo: false\n    getter: \"GetIt\"\n  b:\n    value: \"V\"\n    todo: false\n    getter: \"GetIt\"\n", false, "a", "b")
+	add("todo-false:same-getter-one-explicit", "services:\n  a:\n    value: \"V\"\n    getter: \"GetIt\"\n  b:\n    value: \"V\"\n    todo: false\n    getter: \"GetIt\"\n", false, "a", "b")
+	add("todo-false:duplicate-tags", "services:\n  a:\n    value: \"V\"\n    todo: false\n    tags: [\"t\", \"t\"]\n", false, "a")
 	add("getter-incontext-suffix", "services:\n  svc:\n    value: \"V\"\n    getter: \"GetInContext\"\n", false, "svc")
 	add("getter-reserved", "services:\n  svc:\n    value: \"V\"\n    getter: \"GetParam\"\n", false, "svc")
 	add("getter-ok", "services:\n  svc:\n    value: \"V\"\n    getter: \"GetParam2\"\n", true)
